@@ -45,10 +45,14 @@ struct FromFloat {
         // ("fragile": assertion failures, UB, wrong results, non-termination; one listed known finding):
         //  * integers below the numerator limit are matched in the first step;
         //  * ratios of two representable integers are matched exactly when the floating type carries at least 16 more
-        //    digits than the component type (the search compares in floating point) and x is below the top octave;
+        //    digits than the component type (the search compares in floating point), the reduced denominator has at most
+        //    D-10 bits and x is below the top octave;
         //  * everything else has to be approximated inside the component range, which the search does not do reliably.
         constexpr bool precise_pair = std::numeric_limits<F>::digits >= D + 16;
-        bool const strict = (is_int && abs(q) < mkq(tmax)) || (exactly_representable && precise_pair && ax < std::ldexp(1.0L, D - 1));
+        // (a coverage-guided run found exact ratios with denominators close to the component limit that are not matched:
+        //  -67108873 / 2^30 for int32 / double; the strict region therefore stops at denominators of D-10 bits)
+        bool const small_denominator = D > 10 && q.get_den() <= (mpz_class(1) << (D - 10));
+        bool const strict = (is_int && abs(q) < mkq(tmax)) || (exactly_representable && precise_pair && small_denominator && ax < std::ldexp(1.0L, D - 1));
         char const* kind = is_int ? "integer" : exactly_representable ? "exact-ratio"
                                                                       : "approximated";
         std::string cause = from_corpus ? std::string("corpus-regression/") + kind + "/"
